@@ -229,6 +229,10 @@ def targets(ctx):
         {"msg": "Scalars", "tree": {"f_string": "é" * 70, "f_bytes": b"\x00" * 60}},
         {"msg": "Maps", "tree": {"m_string_leaf": [["k" * 70, {"s": "v" * 70}]]}},
         {"msg": "Rec", "tree": {"rec": {"rec": {"leaf": {"s": "z" * 120}}}}},
+        # empty elements of non-packed repeated fields / empty map values, at field numbers below and above 15
+        {"msg": "Repeats", "tree": {"r_string": ["", "a", ""], "r_bytes": [b""], "r_leaf": [{}, {"i": 1}, {}], "r_empty": [{}, {}]}},
+        {"msg": "Repeats", "tree": {"r_leaf": [{}], "r_ts": [0], "r_dur": [0, 1]}},
+        {"msg": "Maps", "tree": {"m_string_leaf": [["", {}]], "m_string_empty": [["k", {}]], "m_int32_rec": [[0, {}]], "m_string_int64": [["", 0]]}},
     ] + ([{"msg": "Repeats", "tree": {"r_fixed64": [7] * 2050}}] if ctx.thorough else []) + [
         {"msg": "Repeats", "tree": {"r_leaf": [{"i": 1}] * 40, "r_string": ["ab"] * 30}, "drop": [18]},
     ])
